@@ -34,7 +34,8 @@ MAIN = "file:///zcv/a/b/c/main.conf"
 INSERT = ["<x y z>", "<", "</x", "(v", "<a", "a>b <", "%foo x", "%define", "%define 1x v", "%include",
           "% define a b", "k $nope", "k ${x", "k $", "%define d $", "%define d ${nope}",
           "nosuchkey v", "nosuchkey", "1x v", "<nosuchtype/>", "<nosuchtype n>", "</nosuchtype>",
-          "%include nosuchfile.conf", "%import no.such.package"]
+          "%include nosuchfile.conf", "%import no.such.package", "%define zd $nope", "%define ZD ${x",
+          "%define Zd a$"]
 BADVALUES = ["abc", "65536", "-1", "5tb", "5x", "1a", "a b", "maybe", "host:99999", "1.2.3", ""]
 
 
